@@ -57,7 +57,9 @@ Agree(b, e) ==
 
 \* ---------------------------------------------------------------- relation
 \* e.op = "f1": one-argument call; e.which = "sel" (the crate-selected backend e.be) or "fallback"
-Backend(e) == IF e.which = "fallback" THEN "fallback" ELSE IF e.be = "none" THEN "fallback" ELSE e.be
+\* (with libm AND mm switched on, libm is the backend)
+Backend(e) == IF e.which = "fallback" THEN "fallback" ELSE IF e.be = "none" THEN "fallback"
+              ELSE IF e.be = "libm+mm" THEN "libm" ELSE e.be
 
 Allowed(e) ==
   CASE e.op = "f1" ->
